@@ -23,7 +23,7 @@ import (
 // or stopEdge accepts the edge it is about to take. A path becomes a witness when killNode
 // names a reason, when it enters a block for which badBlock names a reason, or (forward only)
 // when it reaches a normal function exit and exitBad is set; backward searches produce a
-// witness when they reach the function entry.
+// witness when they reach the function entry (or step into a predecessor rejected by badBlock).
 type gSearch struct {
 	c        *Ctx
 	info     *types.Info
@@ -162,6 +162,11 @@ func (s *gSearch) backward(g *cfg.CFG, start *cfg.Block, idx int) []string {
 		for _, p := range preds[it.b] {
 			if s.stopEdge != nil && s.stopEdge(p.b, p.k) {
 				continue
+			}
+			if s.badBlock != nil {
+				if why := s.badBlock(p.b); why != "" {
+					return gAppendTrail(it.trail, why)
+				}
 			}
 			if seen[p.b] {
 				continue
